@@ -487,7 +487,10 @@ def check_c07(rep):
                      'q == 0 and otherwise store q and change nothing else (all u32, arbitrary prior settings); (2) escaper '
                      'pre-condition: the grapheme splitter\'s keep/split decision never KEEPS a unit of 2..=%d code points that '
                      'contains a backslash (such a unit is printed with a bare backslash: invalid pattern, and a panic in build() '
-                     'when both anchors are disabled), and its units always partition the input in order.' % nmax)
+                     'when both anchors are disabled), and its units always partition the input in order; (3) escape_regexp_symbols '
+                     'turns every unit of 1..=%d code points (multi-code-point units without backslash, by (2)) into text that the '
+                     'regex crate reads as exactly those literals: every metacharacter, control character and the backslash is '
+                     'escaped, for both settings of non-ASCII escaping.' % (nmax, 2 if rep.tier == 'quick' else 3))
     rep.outside = ['totality of build() on arbitrary lists and the 2^15 settings lattice', 'validity of everything the printer emits',
                    'units longer than %d code points' % nmax,
                    'cluster shapes other than base + Extend* when the unconstrained query is sat (realisability filter)']
@@ -535,6 +538,42 @@ def check_c07(rep):
                 '+'.join(u(x) for x in seq), json.dumps(''.join(map(chr, pats[i] or []))), not invalid, panics)
             classify(rep, known, o.qid, key, what, {'inputs': {'s': seq}, 'observed': {'units': units, 'pattern': pats[i], 'invalid': invalid, 'panics': panics}},
                      kept and (invalid or panics))
+    # escaping of metacharacters: every unit becomes text that denotes exactly that literal
+    single = []
+    for n in ((1, 2) if rep.tier == 'quick' else (1, 2, 3)):
+        if len(single) >= env.ctx.cap('Q07e'):
+            break
+        o = ob_add(rep, Q.q07e(env.ctx, n, exclude=single))
+        if o.result != 'sat':
+            continue
+        if n == 1:
+            single = o.verdict.models
+        for m in o.verdict.models:
+            seq = [m['c%d' % i] for i in range(n)]
+            esc, surr = m['esc'], m['surr']
+            got = env.eval([{'op': 'escape_regexp_symbols', 's': seq, 'escape': esc, 'surrogates': surr}])
+            text = got[0].get('ok') or []
+            # the text must parse, piece by piece, to the literals; checked with the regex crate on the whole text
+            want = ''.join(map(chr, seq))
+            r = env.eval([{'op': 'regex_find', 'pattern': [ord('^')] + text + [ord('$')], 'text': seq},
+                          {'op': 'build', 'cases': [seq], 'settings': {'escape': esc, 'surrogates': surr}}])
+            ok = isinstance(r[0].get('ok'), list)
+            key = 's=%s,escape=%s,surrogates=%s' % ('+'.join(u(x) for x in seq), str(esc).lower(), str(surr).lower())
+            what = 'escape_regexp_symbols turns %s into %s, which the regex crate does not read as that literal (%s); build() gives %s' % (
+                '+'.join(u(x) for x in seq), json.dumps(''.join(map(chr, text))), r[0], json.dumps(''.join(map(chr, r[1].get('ok') or []))) if 'ok' in r[1] else r[1])
+            classify(rep, known, o.qid, key, what, {'inputs': {'e': seq, 'escape': esc, 'surrogates': surr}, 'observed': {'text': text, 'regex': r[0]}},
+                     not ok and not (surr and esc and any(x >= 0x10000 for x in seq)))
+    vcases = []
+    for c in sample_cps(rep, 8):
+        for esc, surr in ((False, False), (True, False), (True, True)):
+            vcases.append(('escape_symbols', {'s': [c], 'escape': esc, 'surrogates': surr},
+                           {'op': 'escape_regexp_symbols', 's': [c], 'escape': esc, 'surrogates': surr}))
+    for c in (0x28, 0x29, 0x5B, 0x5D, 0x7B, 0x7D, 0x2B, 0x2A, 0x2D, 0x2E, 0x3F, 0x7C, 0x5E, 0x24, 0x5C, 0xA, 0xD, 0x9, 0xB, 0xC, 0x23, 0x26, 0x7E):
+        vcases.append(('escape_symbols', {'s': [c], 'escape': False, 'surrogates': False},
+                       {'op': 'escape_regexp_symbols', 's': [c], 'escape': False, 'surrogates': False}))
+    vcases.append(('escape_symbols', {'s': [0x28, 0x1F3FB], 'escape': True, 'surrogates': True},
+                   {'op': 'escape_regexp_symbols', 's': [0x28, 0x1F3FB], 'escape': True, 'surrogates': True}))
+    validate(env, rep, vcases)
     cases = []
     for s in ([92, 0x61], [92, 0x1F3FB, 0x1F3FB], [0x61, 0x308], [0x1F468, 0x200D, 0x1F469], [92], [0x915, 0x94D, 0x937], [0x61],
               [92, 0xFF9E], [0xE01, 0xE33], [92, 0xE33, 0xE33]):
@@ -576,6 +615,12 @@ def check_c07(rep):
 
 
 def replay_c07(env, rec):
+    if 'e' in rec['inputs']:
+        seq, esc, surr = rec['inputs']['e'], rec['inputs']['escape'], rec['inputs']['surrogates']
+        got = env.eval([{'op': 'escape_regexp_symbols', 's': seq, 'escape': esc, 'surrogates': surr}])
+        text = got[0].get('ok') or []
+        r = env.eval([{'op': 'regex_find', 'pattern': [ord('^')] + text + [ord('$')], 'text': seq}])
+        return not isinstance(r[0].get('ok'), list), 'escaped text %s; regex crate: %s' % (json.dumps(''.join(map(chr, text))), r[0])
     if 's' in rec['inputs']:
         s = rec['inputs']['s']
         got = env.eval([{'op': 'split', 's': s}, {'op': 'build', 'cases': [s], 'settings': {'no_anchors': True}}])
@@ -767,9 +812,95 @@ def replay_c12(env, rec):
     return p.stdout != rec['observed']['library'], 'stdout %s vs library %s' % (json.dumps(p.stdout), json.dumps(rec['observed']['library']))
 
 
+# =========================================================================== C15
+def check_c15(rep):
+    rep.statement = ('kernel "per-component rendering": for each of the 18 Component variants and all field values (Booleans, every '
+                     'u32, payload strings copied through), and for Display of a Grapheme (one unit of 1-2 code points or a class token, '
+                     'any min/max, capture/verbose flags), the highlighted rendering minus its SGR sequences (ESC [ digits;digits m / '
+                     'ESC [ 0 m) equals the plain rendering, and highlighting adds balanced start/reset codes.')
+    rep.outside = ['format.rs (alternations, character classes, concatenations) and Display for RegExp / indent_regexp (colour-aware '
+                   'indentation): they call to_repr(is_output_colorized) at every site, which is not decided here',
+                   'payloads containing an ESC character (a test case with a literal SGR sequence)',
+                   'nested repetitions beyond one level; counts >= 100 in the nested shape']
+    rep.assumptions += ['payload strings contain no ESC (U+001B)']
+    env = Env(rep)
+    known, _ = load_known()
+    variants = env.ctx.mir.enums.get('Component') or []
+    obs = []
+    for k in range(len(variants)):
+        obs.append(ob_add(rep, Q.q15(env.ctx, k)))
+    shapes = ['unit1', 'class-token'] + (['unit2', 'nested'] if rep.tier == 'thorough' else [])
+    for sh in shapes:
+        obs.append(ob_add(rep, Q.q15g(env.ctx, sh)))
+    # translator validation: concrete renderings through the encoding and the real code
+    cases = []
+    rnd = random.Random(rep.seed + 15)
+    for k in range(len(variants)):
+        for colored in (False, True):
+            inp = {'kind': k, 'text': [0x61, 0x7C, 0x62][:rnd.randrange(4)], 'a': rnd.choice([0, 1, 7, 12, 4294967295]),
+                   'b': rnd.choice([0, 3, 10, 99999]), 'flag1': rnd.random() < 0.5, 'flag2': rnd.random() < 0.5, 'colored': colored}
+            cases.append(('component', inp, dict(inp, op='component')))
+    for chars, mn, mx in (([[0x61]], 1, 1), ([[0x61]], 3, 3), ([[0x61, 0x62]], 2, 5), ([[92, 0x64]], 2, 2), ([[92, 0x64]], 1, 4),
+                          ([[0x61], [0x62]], 4, 4), ([[92, 0x75, 0x7B, 0x31, 0x7D]], 2, 3)):
+        for colored in (False, True):
+            inp = {'chars': chars, 'min': mn, 'max': mx, 'capture': rnd.random() < 0.5, 'colored': colored, 'verbose': rnd.random() < 0.5}
+            cases.append(('grapheme_display', inp, dict(inp, op='grapheme_display')))
+    validate(env, rep, cases)
+    for o in obs:
+        if o.result != 'sat':
+            continue
+        m = o.verdict.models[0]
+        if o.qid.startswith('Q15['):
+            k = variants.index(o.qid[4:-1])
+            text = [m[x] for x in sorted((x for x in m if re.fullmatch(r'p\d+', x)), key=lambda s: int(s[1:]))]
+            inp = {'kind': k, 'text': text, 'a': m.get('a', 0), 'b': m.get('b', 0), 'flag1': bool(m.get('flag1', False)), 'flag2': bool(m.get('flag2', False))}
+            if variants[k] == 'Quantifier':
+                # both quantifier kinds are run; replay each
+                rs = []
+                for f2 in (False, True):
+                    rs.append(env.eval([dict(inp, op='component', flag2=f2, colored=True), dict(inp, op='component', flag2=f2, colored=False)]))
+                bad = any(py_strip_sgr(r[0].get('ok') or []) != (r[1].get('ok') or []) for r in rs)
+                got = rs[0]
+            else:
+                got = env.eval([dict(inp, op='component', colored=True), dict(inp, op='component', colored=False)])
+                bad = py_strip_sgr(got[0].get('ok') or []) != (got[1].get('ok') or [])
+            key = 'component=%s,%s' % (variants[k], ','.join('%s=%s' % (a_, inp[a_]) for a_ in ('text', 'a', 'b', 'flag1', 'flag2')))
+            what = 'highlighted %s / plain %s' % (json.dumps(''.join(map(chr, got[0].get('ok') or []))), json.dumps(''.join(map(chr, got[1].get('ok') or []))))
+            classify(rep, known, o.qid, key, what, {'inputs': dict(inp, what='component'), 'observed': got}, bad)
+        else:
+            shape = o.qid[5:-1]
+            if shape == 'class-token':
+                chars = [[92, m['cls']]]
+            elif shape.startswith('unit'):
+                chars = [[m['p%d' % i] for i in range(int(shape[4:]))]]
+            else:
+                rep.nonrepro.append('%s: sat for the nested shape; replay through the hook is not available' % o.qid)
+                continue
+            inp = {'chars': chars, 'min': m['min'], 'max': m['max'], 'capture': bool(m['capture']), 'verbose': bool(m['verbose'])}
+            got = env.eval([dict(inp, op='grapheme_display', colored=True), dict(inp, op='grapheme_display', colored=False)])
+            bad = py_strip_sgr(got[0].get('ok') or []) != (got[1].get('ok') or [])
+            key = 'grapheme=%s,min=%d,max=%d,capture=%s,verbose=%s' % ('+'.join(u(x) for x in chars[0]), m['min'], m['max'], inp['capture'], inp['verbose'])
+            what = 'highlighted %s / plain %s' % (json.dumps(''.join(map(chr, got[0].get('ok') or []))), json.dumps(''.join(map(chr, got[1].get('ok') or []))))
+            classify(rep, known, o.qid, key, what, {'inputs': dict(inp, what='grapheme'), 'observed': got}, bad)
+
+
+def py_strip_sgr(cps_):
+    s = ''.join(map(chr, cps_))
+    return [ord(c) for c in re.sub('\x1b\\[(?:\\d+;\\d+|0)m', '', s)]
+
+
+def replay_c15(env, rec):
+    inp = dict(rec['inputs'])
+    what = inp.pop('what')
+    op = 'component' if what == 'component' else 'grapheme_display'
+    got = env.eval([dict(inp, op=op, colored=True), dict(inp, op=op, colored=False)])
+    bad = py_strip_sgr(got[0].get('ok') or []) != (got[1].get('ok') or [])
+    return bad, 'highlighted %s / plain %s' % (got[0], got[1])
+
+
 # --------------------------------------------------------------------------- driver
-CHECKS = {'C03': check_c03, 'C04': check_c04, 'C07': check_c07, 'C09': check_c09, 'C10': check_c10, 'C11': check_c11, 'C12': check_c12}
-REPLAYS = {'C03': replay_c03, 'C04': replay_c04, 'C07': replay_c07, 'C09': replay_c09, 'C10': replay_c10, 'C11': replay_c11, 'C12': replay_c12}
+CHECKS = {'C03': check_c03, 'C04': check_c04, 'C07': check_c07, 'C09': check_c09, 'C10': check_c10, 'C11': check_c11, 'C12': check_c12, 'C15': check_c15}
+REPLAYS = {'C03': replay_c03, 'C04': replay_c04, 'C07': replay_c07, 'C09': replay_c09, 'C10': replay_c10, 'C11': replay_c11, 'C12': replay_c12, 'C15': replay_c15}
 
 
 def write_evidence(rep, exit_code):
